@@ -66,6 +66,11 @@ func (s *SplitStrategy) Compute(snapshots <-chan *asset.Snapshot) <-chan Action 
 				result <- Hold
 			}
 		}
+
+		// One of the streams has ended. Drain both so that the
+		// producer of the longer one is not left blocked.
+		go helper.Drain(buyActions)
+		go helper.Drain(sellActions)
 	}()
 
 	return result
